@@ -88,11 +88,16 @@ def _dev(a, b, q, d, grid, what):
     return worst
 
 
-def _grids(q, tier):
+def _grids(q, tier, calib="none"):
     from mc import compare
 
     gs = alphabets.grids([2.0 ** -7, 0.125, 0.5], [3])
-    return [g for g in gs if (max(np.diff(g)) / min(np.diff(g))) ** q <= compare.AMP_MAX]
+    gs = [g for g in gs if (max(np.diff(g)) / min(np.diff(g))) ** q <= compare.AMP_MAX]
+    if calib != "none":
+        # a-priori conditioning rule: with the exact Taylor coefficients as initial mean the residual is O(h^q) of its terms, and an
+        # estimated scale inherits that cancellation (rounding ~1e-16 / h^q); calibrated modes are compared on grids with h_min^q >= 1e-4
+        gs = [g for g in gs if min(np.diff(g)) ** q >= 1e-4]
+    return gs
 
 
 def _allowed(grid, q):
@@ -109,7 +114,7 @@ def _run_ts0(case):
     sample = None
     for fname, C in sorted(alphabets.fields(d, m, "thorough").items()):
         tc = ssmcheck.mean0(C, d, m, q, 0)
-        for grid in _grids(q, tier):
+        for grid in _grids(q, tier, case["calib"]):
             sols = {s: _solve(s, case, C, tc, grid, "ts0") for s in ("dense", "isotropic", "blockdiag")}
             n += 3
             al = _allowed(grid, q)
@@ -171,7 +176,7 @@ def _run_decoupled(case):
     fails = []
     worst = 0.0
     n = 0
-    for grid in _grids(q, tier):
+    for grid in _grids(q, tier, case["calib"]):
         bd = _solve("blockdiag", case, C, tc, grid, "ts1")
         al = _allowed(grid, q)
         n += 1
@@ -209,7 +214,7 @@ def _run_scalarjac(case):
     fails = []
     worst = 0.0
     n = 0
-    for grid in _grids(q, tier):
+    for grid in _grids(q, tier, case["calib"]):
         a = _solve("isotropic", case, C, tc, grid, "ts1")
         b = _solve("dense", case, C, tc, grid, "ts1")
         al = _allowed(grid, q)
